@@ -1,6 +1,7 @@
 package main
 
 import (
+	"bytes"
 	"fmt"
 	"reflect"
 	"strings"
@@ -49,6 +50,9 @@ func pduLine(p interface{}) string { return typeName(p) + " " + toks(p) }
 
 // C01: representable values of every type, several chunkings, some with non-zero status.
 func genC01(r *gen.Rng, tier string, emit func(string)) {
+	for _, p := range boundaryPDUs() {
+		emit("rt " + pickChunk(r, 64) + " " + pduLine(p))
+	}
 	n := scale(tier, 3000, 60000)
 	ts := canon.Types()
 	for i := 0; i < n; i++ {
@@ -282,6 +286,9 @@ func genC04(r *gen.Rng, tier string, emit func(string)) {
 
 // C12: unconstrained values.
 func genC12(r *gen.Rng, tier string, emit func(string)) {
+	for _, p := range boundaryPDUs() {
+		emit("marshal " + pduLine(p))
+	}
 	n := scale(tier, 3000, 60000)
 	ts := canon.Types()
 	for i := 0; i < n; i++ {
@@ -329,6 +336,9 @@ func genC13(r *gen.Rng, tier string, emit func(string)) {
 // C02: representable values (the specification frame is computed by the Lean side) plus values
 // just outside what the length fields can state.
 func genC02(r *gen.Rng, tier string, emit func(string)) {
+	for _, p := range boundaryPDUs() {
+		emit("spec " + pduLine(p))
+	}
 	n := scale(tier, 3000, 60000)
 	ts := canon.Types()
 	for i := 0; i < n; i++ {
@@ -410,4 +420,55 @@ func representableBits(p interface{}) bool {
 		ok = false
 	}
 	return ok
+}
+
+// boundaryPDUs: a deterministic suite at the size boundaries the properties name — container
+// counts around 255/256 in every split between the two destination kinds, TLV lengths around
+// 65534/65535, frames of exactly 65535/65536/65537 octets, UDH element / UDH / sm_length around
+// 255/256, messages of 140/141 octets.
+func boundaryPDUs() []interface{} {
+	var out []interface{}
+	hdr := pdu.Header{Sequence: 5}
+	addr := func(i int) pdu.Address { return pdu.Address{TON: 1, NPI: 1, No: fmt.Sprintf("%d", 1000+i)} }
+	for _, c := range [][2]int{{0, 0}, {1, 0}, {0, 1}, {255, 0}, {0, 255}, {256, 0}, {0, 256}, {128, 127}, {128, 128}, {200, 100}, {255, 1}, {1, 255}, {254, 1}, {100, 155}, {100, 156}, {255, 255}, {300, 300}} {
+		p := &pdu.SubmitMulti{Header: hdr}
+		for i := 0; i < c[0]; i++ {
+			p.DestAddrList.Addresses = append(p.DestAddrList.Addresses, addr(i))
+		}
+		for i := 0; i < c[1]; i++ {
+			p.DestAddrList.DistributionList = append(p.DestAddrList.DistributionList, fmt.Sprintf("dl%d", i))
+		}
+		out = append(out, p)
+	}
+	for _, n := range []int{0, 1, 254, 255, 256, 257, 511, 512} {
+		p := &pdu.SubmitMultiResp{Header: hdr, MessageID: "m"}
+		for i := 0; i < n; i++ {
+			p.UnsuccessfulSMEs = append(p.UnsuccessfulSMEs, pdu.UnsuccessfulRecord{DestAddr: addr(i), ErrorStatusCode: pdu.CommandStatus(i)})
+		}
+		out = append(out, p)
+	}
+	// alert_notification = 16 + 3 + 3 + 4 + L octets
+	for _, l := range []int{1, 65508, 65509, 65510, 65511, 65533, 65534, 65535, 65536} {
+		out = append(out, &pdu.AlertNotification{Header: hdr, Tags: pdu.Tags{0x1234: bytes.Repeat([]byte{0xAB}, l)}})
+	}
+	out = append(out, &pdu.DataSM{Header: hdr, Tags: pdu.Tags{1: make([]byte, 30000), 2: make([]byte, 30000), 3: make([]byte, 30000)}})
+	out = append(out, &pdu.DataSM{Header: hdr, Tags: pdu.Tags{1: make([]byte, 32700), 2: make([]byte, 32780)}})
+	sm := func(udh pdu.UserDataHeader, ml int) *pdu.SubmitSM {
+		p := &pdu.SubmitSM{Header: hdr}
+		p.ESMClass.UDHIndicator = udh != nil
+		p.Message.UDHeader = udh
+		p.Message.Message = bytes.Repeat([]byte{0x41}, ml)
+		return p
+	}
+	for _, ml := range []int{0, 139, 140, 141, 255, 256} {
+		out = append(out, sm(nil, ml))
+	}
+	for _, el := range []int{0, 1, 252, 253, 254, 255, 256} {
+		out = append(out, sm(pdu.UserDataHeader{7: make([]byte, el)}, 0))
+	}
+	for _, c := range [][3]int{{120, 120, 10}, {120, 120, 11}, {120, 120, 140}, {125, 125, 0}, {125, 126, 0}, {126, 126, 0}, {100, 10, 140}, {100, 11, 140}, {5, 0, 140}, {0, 0, 140}} {
+		out = append(out, sm(pdu.UserDataHeader{1: make([]byte, c[0]), 2: make([]byte, c[1])}, c[2]))
+	}
+	out = append(out, sm(pdu.UserDataHeader{}, 0), sm(pdu.UserDataHeader{}, 140))
+	return out
 }
